@@ -279,7 +279,7 @@ def process(ctx, model, impl, cases, stats, tag, report=True, chunk=1500):
             all_hits += hits
     if report:
         for kind, c, line, lines in all_hits:
-            ctx.violation("%s: %s" % (VARIANT_NAMES.get(c["cfg"][0], c["cfg"][0]), WHAT[kind]), {"case": c, "monitor": line, "impl_log": lines})
+            ctx.violation("%s: %s" % (VARIANT_NAMES.get(c["cfg"][0], c["cfg"][0]), WHAT[kind]), {"case": c, "monitor_kind": kind, "monitor": line, "impl_log": lines})
     return first_div, all_hits
 
 
